@@ -20,6 +20,7 @@
 #include <cstring>
 #include <fstream>
 #include <link.h>
+#include <map>
 #include <memory>
 #include <set>
 #include <sstream>
@@ -241,14 +242,26 @@ int main(int argc, char ** argv)
           if (word_name(w) == name) ws.push_back({word_ptr(w), strtoull(h1.c_str(), 0, 16), strtoull(h2.c_str(), 0, 16)});
       }
     }
+    // the items shot under both value sets: spread evenly over the whole pool (its tail holds the last configurations of the list),
+    // and at least two items of every configuration
+    std::vector<size_t> sel;
+    {
+      size_t step = std::max<size_t>(1, g_items.size() / std::max<size_t>(1, max_items));
+      std::map<int, int> per_cfg;
+      for (size_t xi = 0; xi < g_items.size(); xi++)
+        if (xi % step == 0 || per_cfg[g_items[xi].cfg] < 2) {
+          sel.push_back(xi);
+          per_cfg[g_items[xi].cfg]++;
+        }
+    }
     // first use of everything (guards set, tables built) before values are swapped
-    for (size_t xi = 0; xi < g_items.size() && xi < max_items; xi++) {
+    for (size_t xi : sel) {
       bxdecay0::event e;
       shoot_item(g_items[xi], seed, e);
     }
     long shots = 0, differing = 0;
     std::string wit = "[";
-    for (size_t xi = 0; xi < g_items.size() && xi < max_items; xi++) {
+    for (size_t xi : sel) {
       for (auto & w : ws) *w.p = w.v1;
       bxdecay0::event e1, e2;
       size_t d1 = shoot_item(g_items[xi], seed, e1);
